@@ -6,8 +6,17 @@
 //                  nn*(x y z)  nf*(a b c type)          -- doubles in hex, integers in decimal
 // answer  : ok <faces_unchanged> P V A Atarget  then five blocks of nn*3 doubles:
 //           all | pressure | tension+elasticity | bending | angle regularisation
+//
+// request : refine <l_min> <l_max> <swap 0|1> <nn> <nf> <nt> …same fields…
+//           builds the cell the same way, then runs the REAL local_mesh_refiner::refine_mesh(l_min, l_max) on it
+//           (edge merges leave unused face / node slots behind until the next rebase) and computes the forces of
+//           the refined cell, slots and all.
+// answer  : okr <node slots> <face slots> <edges> P V A Atarget, the live mesh
+//           node slots*(used x y z)  face slots*(used a b c type)  edges*(n1 n2 f1 f2) in edge_set_ order,
+//           then the same five force blocks over the node slots.
 #include "proto.hpp"
 #include "cell.hpp"
+#include "local_mesh_refiner.hpp"
 #include <memory>
 #include <cmath>
 
@@ -22,10 +31,12 @@ public:
         c.update_target_volume(dt);
         c.update_pressure();
     }
-    static void run(const std::vector<std::string>& w){
+    static void run(const std::vector<std::string>& w, const bool refine){
         size_t k = 1;
         auto nextu = [&]() -> unsigned { return (unsigned) std::stoul(w.at(k++)); };
         auto nextd = [&]() -> double { return vproto::from_hex(w.at(k++)); };
+        double l_min = 0., l_max = 0.; unsigned swap = 0;
+        if(refine){ l_min = nextd(); l_max = nextd(); swap = nextu(); }
         const unsigned nn = nextu(), nf = nextu(), nt = nextu();
         auto ct = std::make_shared<cell_type_parameters>();
         ct->name_ = "t"; ct->global_type_id_ = 0; ct->mass_density_ = 1000.;
@@ -57,8 +68,15 @@ public:
         }
         for(unsigned n = 0; unchanged && n < nn; n++) unchanged = c->node_lst_[n].is_used();
         if(unchanged) for(unsigned f = 0; f < nf; f++) c->face_lst_[f].set_face_type_id(ftype[f]);
-        std::string out = "ok ";
-        out += unchanged ? "1" : "0";
+        if(refine){
+            if(!unchanged){ std::cout << "reject\n"; return; }
+            try {
+                local_mesh_refiner refiner(l_min, l_max, swap != 0);
+                refiner.refine_mesh(c);
+            } catch(const std::exception& e){ std::cout << "reject\n"; return; }
+        }
+        std::string out = refine ? "okr" : "ok ";
+        if(!refine) out += unchanged ? "1" : "0";
         auto dump = [&](){
             for(const node& n : c->node_lst_){
                 out += ' '; out += vproto::to_hex(n.force_.dx());
@@ -73,6 +91,27 @@ public:
         out += ' '; out += vproto::to_hex(c->volume_);
         out += ' '; out += vproto::to_hex(c->area_);
         out += ' '; out += vproto::to_hex(c->target_area_);
+        if(refine){
+            // the live mesh as it is now (taken after the first call: positions and topology do not change)
+            std::string head = " " + std::to_string(c->node_lst_.size()) + " " + std::to_string(c->face_lst_.size()) + " "
+                             + std::to_string(c->edge_set_.size());
+            out.insert(3, head);
+            for(const node& n : c->node_lst_){
+                out += n.is_used() ? " 1 " : " 0 ";
+                out += vproto::to_hex(n.pos_.dx()); out += ' '; out += vproto::to_hex(n.pos_.dy()); out += ' ';
+                out += vproto::to_hex(n.pos_.dz());
+            }
+            for(const face& F : c->face_lst_){
+                out += F.is_used() ? " 1 " : " 0 ";
+                out += std::to_string(F.n1_id_); out += ' '; out += std::to_string(F.n2_id_); out += ' ';
+                out += std::to_string(F.n3_id_); out += ' '; out += std::to_string(F.type_id_);
+            }
+            for(const edge& e : c->edge_set_){
+                out += ' '; out += std::to_string(e.n1()); out += ' '; out += std::to_string(e.n2());
+                out += ' '; out += e.is_manifold() ? std::to_string(e.f1()) : std::string("-1");
+                out += ' '; out += e.is_manifold() ? std::to_string(e.f2()) : std::string("-1");
+            }
+        }
         dump();
         // 1..4: one protected term at a time after the same prelude
         for(int term = 1; term <= 4; term++){
@@ -94,8 +133,8 @@ int main(){
     std::string line;
     while(std::getline(std::cin, line)){
         auto w = vproto::split(line);
-        if(w.empty() || w[0] != "forces" || w.size() < 16){ std::cout << "bad-op\n"; continue; }
-        try { cell_tester::run(w); }
+        if(w.empty() || (w[0] != "forces" && w[0] != "refine") || w.size() < 16){ std::cout << "bad-op\n"; continue; }
+        try { cell_tester::run(w, w[0] == "refine"); }
         catch(const std::exception& e){ std::cout << "bad-op\n"; }
     }
     return 0;
